@@ -71,7 +71,7 @@ def generate(ctx, rng):
         for lt in (None, 46800, 3600):
             yield ("d", i, lt), {"kind": "history", "letters": h, "lifetime": lt}
     extra = LETTERS + ["jump_5h", "jump_7h", "jump_25h", "jump_49h"]
-    for j in range(300 if quick else 24000):
+    for j in range(300 if quick else 120000):
         d = rng.randint(4, 12 if quick else 25)
         yield ("r", j), {"kind": "history", "letters": [rng.choice(extra) for _ in range(d)], "lifetime": rng.choice(LIFETIMES)}
     # the very first authentication attempts fail at the TCP level (refused / no answer) before anything else happens
@@ -79,7 +79,7 @@ def generate(ctx, rng):
             [["auth_refused"], ["auth_refused", "send"], ["auth_hang"], ["auth_refused", "auth_refused", "send"], ["auth_hang", "send"], ["auth_refused", "send", "send"]],
             [[], ["send"], ["jump_small", "send"], ["fin", "send"], ["auth_good"]])):
         yield ("pre", j), {"kind": "history", "letters": letters, "lifetime": LIFETIMES[j % 4], "pre": pre}
-    yield ("long",), {"kind": "long", "n": 5000 if quick else 70000}
+    yield ("long",), {"kind": "long", "n": 5000 if quick else 350000}
 
 
 def run_case(ctx, case):
